@@ -28,7 +28,16 @@ class Stage:
         os.makedirs(self.work)
         atexit.register(self.cleanup)
         t = time.time()
-        subprocess.run(["rsync", "-a", "--exclude", ".git", REPO + "/", self.repo + "/"], check=True)
+        for attempt in range(3):
+            # rc 24 = source files vanished during the copy (somebody is building in /repo): copy again over the same target
+            r = subprocess.run(["rsync", "-a", "--exclude", ".git", REPO + "/", self.repo + "/"])
+            if r.returncode == 0:
+                break
+            if r.returncode == 24 and attempt == 2:
+                break   # only transient build outputs vanish; the stage's own `make` rebuilds whatever is missing
+            if r.returncode != 24:
+                raise BuildError("rsync of %s failed with exit status %d" % (REPO, r.returncode))
+            time.sleep(5)
         self.timings["rsync_s"] = round(time.time() - t, 2)
         patch = os.environ.get("VERIF_PATCH")
         if patch:   # development aid: try a candidate fix or a seeded change without touching /repo
